@@ -57,34 +57,44 @@ func R2Identity(c *Ctx) {
 		c.R.Anchor(rule, "handlers.handleDemonAgent")
 	} else {
 		found := false
-		EachCall(hd, func(call ssa.CallInstruction) {
-			if !strings.HasSuffix(CalleeName(call), ".AgentAdd") {
-				return
-			}
-			found = true
-			ok := false
-			for _, f := range FactsAt(call.Block()) {
+		notExists := func(b *ssa.BasicBlock) bool {
+			for _, f := range FactsAt(b) {
 				if cl, isCall := f.Cond.(*ssa.Call); isCall && strings.HasSuffix(CalleeName(cl), ".AgentExist") && !f.Truth {
 					if DerivesFrom(cl.Call.Args[0], IsFieldLoad(PkgAgent+".Header", "AgentID")) {
-						ok = true
+						return true
 					}
 				}
 			}
-			// the parsed agent is built from the same header id
-			sameID := false
-			EachCall(hd, func(c2 ssa.CallInstruction) {
-				if CalleeName(c2) == "Havoc/pkg/agent.ParseDemonRegisterRequest" && InstrDominates(c2, call) {
-					if DerivesFrom(c2.Common().Args[0], IsFieldLoad(PkgAgent+".Header", "AgentID")) {
-						sameID = true
+			return false
+		}
+		// the registration branch may live in an unexported helper of handleDemonAgent
+		for _, hf := range HelperClosure(hd, 2) {
+			hf := hf
+			EachCall(hf, func(call ssa.CallInstruction) {
+				if !strings.HasSuffix(CalleeName(call), ".AgentAdd") {
+					return
+				}
+				found = true
+				ok := notExists(call.Block())
+				if !ok && hf != hd {
+					ok = c.EveryCallSite(hf, func(site ssa.CallInstruction) bool { return notExists(site.Block()) })
+				}
+				// the parsed agent is built from the same header id
+				sameID := false
+				EachCall(hf, func(c2 ssa.CallInstruction) {
+					if CalleeName(c2) == "Havoc/pkg/agent.ParseDemonRegisterRequest" && InstrDominates(c2, call) {
+						if DerivesFrom(c2.Common().Args[0], IsFieldLoad(PkgAgent+".Header", "AgentID")) {
+							sameID = true
+						}
 					}
+				})
+				if ok && sameID {
+					c.R.Ok(rule, FuncShort(hd), "AgentAdd under !AgentExist(Header.AgentID)", c.pos(call.Pos()), "a session is added only when no session with the sender's id exists, and is parsed for that same id", true)
+				} else {
+					c.R.Bad(rule, FuncShort(hd), "AgentAdd under !AgentExist(Header.AgentID)", c.pos(call.Pos()), "a session is added without the exists-check on the header id (or parsed for another id): two sessions may share an id")
 				}
 			})
-			if ok && sameID {
-				c.R.Ok(rule, FuncShort(hd), "AgentAdd under !AgentExist(Header.AgentID)", c.pos(call.Pos()), "a session is added only when no session with the sender's id exists, and is parsed for that same id", true)
-			} else {
-				c.R.Bad(rule, FuncShort(hd), "AgentAdd under !AgentExist(Header.AgentID)", c.pos(call.Pos()), "a session is added without the exists-check on the header id (or parsed for another id): two sessions may share an id")
-			}
-		})
+		}
 		if !found {
 			c.R.Anchor(rule, "the AgentAdd call in handleDemonAgent")
 		}
